@@ -33,7 +33,7 @@ var c09Widths = []uint64{17, 24, 31, 32, 33, 48, 63, 64, 65, 96, 127, 128, 129, 
 
 func genC09(ctx *fw.Ctx) []fw.Case {
 	var cases []fw.Case
-	maxExh := uint64(ctx.Pick(12, 16))
+	maxExh := uint64(ctx.Pick(13, 17))
 	for w := uint64(1); w <= maxExh; w++ {
 		w := w
 		nblk := 1
